@@ -61,13 +61,13 @@ DataCols(t) ==
       dtk |-> [j \in DOMAIN keep |-> t.dtk[keep[j]]], cells |-> [j \in DOMAIN keep |-> t.cells[keep[j]]]]
 
 (* models.py:86-117, then interfaces.py:39-134: a fresh model of class `cls` *)
-FromTable(t, cls, kind) ==
+FromTable(t, cls, kind, cdt) ==
   LET n == Len(t.index)
       col(x) == t.cells[Pos(t.columns, x)]
   IN [span  |-> t.index,                                                                  \* :110-115
       kind  |-> IF kind \in TimeKinds THEN kind ELSE "list",
-      cls   |-> cls, names |-> cls,
-      ser   |-> [x \in Range(cls) |-> [dt |-> "f",                                        \* interfaces.py:129-134
+      cls   |-> cls, names |-> cls, cdt |-> cdt,                                         \* the caller's dtype= keyword
+      ser   |-> [x \in Range(cls) |-> [dt |-> cdt,                                        \* interfaces.py:129-134
                                        v  |-> IF x \in Range(t.columns) THEN col(x) ELSE [i \in 1..n |-> 0]]],
       st    |-> [i \in 1..n |-> Unsol], it |-> [i \in 1..n |-> -1]]
 
@@ -105,7 +105,7 @@ VARIABLES pc,    \* "new" | "ready" | "exported" | "done"
 vars == <<pc, mode, m, m0, solved, fl, tb, bk, lk, ltabs, syms, symtab, symback>>
 
 NoTable == [index |-> <<>>, columns |-> <<>>, dtk |-> <<>>, cells |-> <<>>]
-NoModel == [span |-> <<>>, kind |-> "list", cls |-> <<>>, names |-> <<>>, ser |-> <<>>, st |-> <<>>, it |-> <<>>]
+NoModel == [span |-> <<>>, kind |-> "list", cls |-> <<>>, names |-> <<>>, cdt |-> "f", ser |-> <<>>, st |-> <<>>, it |-> <<>>]
 NoFlags == [status |-> FALSE, iterations |-> FALSE, internal |-> FALSE]
 NoLinker == [name |-> "", own |-> NoModel, subs |-> <<>>]
 
@@ -122,7 +122,7 @@ Skip ==
   /\ UNCHANGED <<mode, m, m0, solved, fl, tb, bk, lk, ltabs, syms, symtab, symback>>
 
 Solve ==
-  /\ pc = "new" /\ mode = "model" /\ \A i \in DOMAIN m.span : m.ser["X"].v[i] # NaN /\ m.ser["Y"].v[i] # NaN
+  /\ pc = "new" /\ mode = "model" /\ m.cdt = "f" /\ \A i \in DOMAIN m.span : m.ser["X"].v[i] # NaN /\ m.ser["Y"].v[i] # NaN
   /\ m' = SolveAll(m) /\ solved' = TRUE /\ pc' = "ready"
   /\ UNCHANGED <<mode, m0, fl, tb, bk, lk, ltabs, syms, symtab, symback>>
 
@@ -133,7 +133,7 @@ Export(f) ==
 
 Import ==
   /\ pc = "exported" /\ mode = "model"
-  /\ bk' = FromTable(DataCols(tb), m.cls, m.kind) /\ pc' = "done"
+  /\ bk' = FromTable(DataCols(tb), m.cls, m.kind, m.cdt) /\ pc' = "done"
   /\ UNCHANGED <<mode, m, m0, solved, fl, tb, lk, ltabs, syms, symtab, symback>>
 
 ExportLinker(f) ==
@@ -184,6 +184,7 @@ C19_RoundTrip ==
     /\ bk.span = m.span
     /\ (m.kind \in TimeKinds => bk.kind = m.kind)
     /\ bk.names = m.cls
+    /\ \A x \in Range(m.cls) : bk.ser[x].dt = m.ser[x].dt                 \* "numeric and boolean dtypes preserved"
     /\ \A x \in Range(m.cls) :
          IF fl.internal \/ x \notin InternalNames
            THEN bk.ser[x].v = m.ser[x].v
